@@ -19,11 +19,14 @@ MUTANTS = [
     M("empty-folders-skipped", F, "                if isinstance(item, dict) and \"folder\" in item:\n                    folders.append(item)", "                if isinstance(item, dict) and \"folder\" in item and item[\"folder\"].get(\"childCount\"):\n                    folders.append(item)", "C18-PART"),
     M("first-page-only", F, "            # Handle pagination\n            current_url = data.get(\"@odata.nextLink\")", "            # Handle pagination\n            current_url = None", "C18-PART"),
     M("wrong-parent-path", F, "                    parent_path=new_parent_path,\n", "                    parent_path=parent_path,\n", "C18-PART"),
+    M("status-raise-inside-read-try", F, "            body = response.read()\n        except Exception as exc:", "            body = response.read()\n            if status is None or not (200 <= status < 300):\n                raise SharePointRequestError(\"bad\", status_code=status, body=None, url=request.full_url)\n        except Exception as exc:", "C18-ERR"),
+    M("skip-empty-folders", F, "            folder_name = item.get(\"name\", \"\")\n", "            if not item.get(\"folder\", {}).get(\"childCount\"):\n                continue\n            folder_name = item.get(\"name\", \"\")\n", "C18-PART"),
 ]
 TWINS = [
     T("date-compare-flipped", F, "if self.created_after and created_dt < self.created_after:", "if self.created_after and self.created_after > created_dt:"),
     T("rename-dt-variable", F, "            created_dt = _parse_iso_datetime(file_meta.created)\n            if created_dt is None:\n                return False\n            if self.created_after and created_dt < self.created_after:\n                return False\n            if self.created_before and created_dt >= self.created_before:", "            c_dt = _parse_iso_datetime(file_meta.created)\n            if c_dt is None:\n                return False\n            if self.created_after and c_dt < self.created_after:\n                return False\n            if self.created_before and c_dt >= self.created_before:"),
     T("close-without-none-test", F, "            if response is not None:\n                try:\n                    response.close()\n                except Exception:\n                    pass\n", "            try:\n                response.close()\n            except Exception:\n                pass\n"),
+    T("folder-id-guard-as-continue", F, "            if folder_id:\n                yield from self._walk_drive_items(\n                    site_id,\n                    folder_id,\n                    drive_id=drive_id,\n                    parent_path=new_parent_path,\n                )\n", "            if not folder_id:\n                continue\n            yield from self._walk_drive_items(\n                site_id,\n                folder_id,\n                drive_id=drive_id,\n                parent_path=new_parent_path,\n            )\n"),
 ]
 
 # --- seeded changes kept under /verif/seeded (sub-agents saw only the property text); each must be reported by the named rule
@@ -36,5 +39,7 @@ SEEDED = [
     ("C18-3", "C18-STATE"),
     ("C18-4", "C18-PROP"),
     ("C18-5", "C18-CMP"),
+    ("C18-6", "C18-ERR"),
+    ("C18-7", "C18-PART"),
 ]
 MUTANTS = list(MUTANTS) + [_P("seed-" + sid, _os.path.join(_SEEDS, sid, "patch.diff"), rule) for sid, rule in SEEDED if _os.path.exists(_os.path.join(_SEEDS, sid, "patch.diff"))]
